@@ -528,5 +528,15 @@ func goid() int64 {
 func copyTree(src, dst string) {
 	_ = os.MkdirAll(dst, 0o755)
 	cmd := exec.Command("cp", "-a", src+"/.", dst+"/")
-	_ = cmd.Run()
+	if out, err := cmd.CombinedOutput(); err != nil {
+		// a directory that was not copied would be judged as if the registry had lost its content
+		infraExit(fmt.Sprintf("copyTree %s -> %s: %v: %s", src, dst, err, out))
+	}
+}
+
+// infraExit ends the test process for a problem of the harness' own environment (never a verdict on the property):
+// the driver reports a shard that ends without a failure record as an infrastructure problem (exit 2).
+func infraExit(msg string) {
+	fmt.Fprintln(os.Stderr, "INFRA: "+msg)
+	os.Exit(3)
 }
